@@ -70,6 +70,14 @@ def mk_pipe(n):
                     return m
 
                 CLK.now = t0
+                if term_kind == 3 and term_pos == 0 and not first_obs:
+                    # the transport fails before any response arrived: the request fails and the observation ends with the error
+                    pipe.add_exception(error.NetworkError("unreachable"))
+                    loop.run_ready()
+                    assert r.response.done() and isinstance(r.response.exception(), error.NetworkError)
+                    assert len(errs) == 1 and isinstance(errs[0], error.Error) and got == [], "observation must end (once) with the network error"
+                    assert r.observation.cancelled
+                    return
                 first = resp(v0 if first_obs else None)
                 pipe.add_response(first, is_last=not first_obs)
                 loop.run_ready()
